@@ -4,6 +4,7 @@
 use std::panic::AssertUnwindSafe;
 
 use actix_http::Request;
+use actix_web::HttpMessage as _;
 use actix_web::{
     body::MessageBody,
     dev::{Service, ServiceResponse},
@@ -46,6 +47,7 @@ async fn dump(req: HttpRequest, tag: String) -> HttpResponse {
         path_tuple,
         marker: req.app_data::<Marker>().map(|m| m.0.clone()),
         match_pattern: req.match_pattern(),
+        guard_marker: req.extensions().get::<GuardSaw>().map(|g| g.0.clone()).unwrap_or_else(|| "-".into()),
     };
 
     HttpResponse::Ok()
@@ -64,6 +66,9 @@ fn handler(
     }
 }
 
+/// What the recording guard of a resource saw (request-local data).
+struct GuardSaw(String);
+
 fn build_resource(r: &Res, ids: &mut Ids) -> actix_web::Resource {
     let id = ids.next_res();
     let pats = r.pat.patterns();
@@ -79,6 +84,13 @@ fn build_resource(r: &Res, ids: &mut Ids) -> actix_web::Resource {
         G::Hdr => res.guard(guard::Header("x-g", "1")),
         G::Host => res.guard(guard::Host("h.test")),
     };
+    // a guard that accepts everything and records how application data resolves for it (guards
+    // and middleware look it up through the service request, handlers through the HttpRequest)
+    res = res.guard(guard::fn_guard(|ctx| {
+        let saw = ctx.app_data::<Marker>().map(|m| m.0.clone()).unwrap_or_else(|| "none".into());
+        ctx.req_data_mut().insert(GuardSaw(saw));
+        true
+    }));
     for (i, k) in r.routes.iter().enumerate() {
         let h = handler(format!("r{id}.{i}"));
         res = match k {
